@@ -52,7 +52,8 @@ func verifC05Check(k Keeper, ctx sdk.Context, supplyBefore sdk.Coin) {
 			verif_assert(p.Withdrawn.Add(p.Sent).LTE(p.InitiallyLocked), "withdrawn + sent <= initially locked")
 		}
 	}
-	verif_assert(verifModuleBal(vDenom).Equal(getLockedSum(k, ctx)), "module account balance = sum of locked over all pools")
+	// backing is measured in the vesting denomination of the stored parameters (a governance denom update must not leave funded pools behind)
+	verif_assert(verifModuleBal(k.GetParams(ctx).Denom).Equal(getLockedSum(k, ctx)), "module account balance = sum of locked over all pools")
 	_, b1 := NonNegativeVestingPoolAmountsInvariant(k)(ctx)
 	_, b2 := VestingPoolConsistentDataInvariant(k)(ctx)
 	_, b3 := ModuleAccountInvariant(k)(ctx)
@@ -83,7 +84,9 @@ func Verif_C05_handlers_preserve_backing() {
 	poolName := verif_str_in("poolName", "pool-a", "pool-b", "pool-new", "")
 	to := verif_str_in("to", vRecipient, vExisting, vOwner)
 	var err error
-	switch verif_choice("op", 7) {
+	switch verif_choice("op", 8) {
+	case 7:
+		_, err = ms.UpdateDenomParam(g, &types.MsgUpdateDenomParam{Authority: verif_str_in("authority", "c4e:gov", vOwner), Denom: verif_str_in("newDenom", "unew", vDenom, "")})
 	case 0:
 		vtName := verif_str_in("vtName", "vt", "missing")
 		_, err = ms.CreateVestingPool(g, &types.MsgCreateVestingPool{Owner: vOwner, Name: poolName, Amount: amount,
